@@ -672,3 +672,12 @@ def _ret_len(ix):
         _RET_LEN.clear()
         _RET_LEN[key] = table
     return lambda fn: _RET_LEN[key].get(fn)
+
+
+def holds_at(fl, e, cond):
+    """`cond` is known to hold where event e runs: an enclosing test (either polarity spelling), or a validation whose
+    failing side raises (`if not cond: raise` before e, or e on the else side of it)"""
+    if any(g.rf is not None and guard_is(fl, g, cond, True) for g in e.guards):
+        return True
+    # (a validation entry, like a guard, records what HOLDS at the event)
+    return any(v.rf is not None and guard_is(fl, v, cond, True) for v in getattr(e, 'validated', ()) or ())
